@@ -7,6 +7,7 @@ attributed to k when validating against S|k = {k} + the siblings k consults
 """
 import random
 
+from jsonschema import exceptions as X
 from vf import impl
 from vf.gen.instance import InstGen
 from vf.gen.schema import SchemaGen, walk_subschemas
@@ -154,8 +155,13 @@ def compare(ctx, d, S, inst, rerooted=False, store=None, handler_docs=None, wrap
     case = {"draft": d, "schema": S, "instance": inst, "store": store, "handler_docs": handler_docs, "instance_class": wrap, "extended_class": ext}
     try:
         full = list(cls(S).iter_errors(mk()))
-    except Exception:
+    except Exception as e:
         ctx.count("skipped_exception_delegated_to_C03")
+        if not isinstance(e, (X.RefResolutionError, X.UnknownType, RecursionError)) and store is None and handler_docs is None \
+                and not _mentions(S, ("$ref", "id", "$id", "extends")) and _plain_json(S) and _plain_json(inst) and _is_valid_schema(d, S):
+            # a schema the metaschema accepts, without references or identifiers, over plain JSON: an exception out of the
+            # iteration means none of the failures is reported
+            ctx.violation("iteration-raised", case, "%s: %s - no failure is reported at all" % (type(e).__name__, str(e)[:120]))
         return
     ctx.count("cases")
     if rerooted:
@@ -194,6 +200,36 @@ def compare(ctx, d, S, inst, rerooted=False, store=None, handler_docs=None, wrap
         extra = [x for x in F if x not in U]
         ctx.violation("union-mismatch", case, "errors(S) lacks %d error(s) its keywords produce alone (e.g. %r); has %d they do not produce (e.g. %r)" % (
             len(missing), missing[:1], len(extra), extra[:1]))
+
+
+def _mentions(x, names):
+    if isinstance(x, dict):
+        return any(k in names or _mentions(v, names) for k, v in x.items())
+    if isinstance(x, list):
+        return any(_mentions(v, names) for v in x)
+    return False
+
+
+def _plain_json(x, depth=0):
+    if depth > 60:
+        return False
+    if type(x) is dict:
+        return all(type(k) is str and _plain_json(v, depth + 1) for k, v in x.items())
+    if type(x) is list:
+        return all(_plain_json(v, depth + 1) for v in x)
+    if type(x) is int:
+        return abs(x) < 10 ** 1000
+    if type(x) is float:
+        return x == x and x not in (float("inf"), float("-inf"))
+    return x is None or type(x) in (bool, str)
+
+
+def _is_valid_schema(d, S):
+    try:
+        impl.CLS[d].check_schema(S)
+    except Exception:
+        return False
+    return True
 
 
 def _pre(errs, path=(), spath=()):
